@@ -58,3 +58,155 @@ def complete_values(model, val, sol_values):
     v = dict(val)
     v.update(sol_values)
     return v
+
+
+HESS = {"trust-constr"}
+BOUNDS_OK = {"L-BFGS-B", "SLSQP", "trust-constr"}
+
+
+def expected_auto(model):
+    """documented rule: unconstrained -> L-BFGS-B; else SLSQP or trust-constr"""
+    if not model["cons"]:
+        return {"L-BFGS-B"}
+    return {"SLSQP", "trust-constr"}
+
+
+def K_bool(b):
+    from vf.engine.sym import sbool_term
+    return sbool_term(b)
+
+
+def _xvec(cols, xv):
+    x = np.empty(len(cols), dtype=object)
+    for i, n in enumerate(cols):
+        x[i] = xv[n]
+    return x
+
+
+def _dual_x(cols, xv, wrt, wrt2=None):
+    dv = K.dual_val({n: xv[n] for n in cols}, wrt, wrt2)
+    return _xvec(cols, dv)
+
+
+def minimize_call_obligations(call, model, cols, val, pc, tag, form, method, PID, qt, allv, payload, planted=False, check_x0=True):
+    """Everything C09 demands of ONE recorded scipy.optimize.minimize call, for
+    the model `model` under the valuation `val` (data and parameter values)."""
+    from vf.engine import smt
+    from vf.engine.sym import SReal, SymbolicConcretisation
+    from vf.props.common import harness_error, inconclusive, proved, violation
+    import z3
+    res = []
+    xv = {n: val[n] for n in cols}
+    full = dict(val)
+    x = _xvec(cols, xv)
+    s = 1.0 if model["sense"] == "min" else -1.0
+    pl = 1.0 if planted else 0.0
+    # method
+    mpassed = call["method"]
+    okm = (mpassed in expected_auto(model)) if method == "auto" else (mpassed == method)
+    res.append(proved(f"{tag}: method {mpassed}") if okm else
+               violation(f"{PID}|method|{method}->{mpassed}", f"{tag}: minimize(method={mpassed!r})", dict(payload, kind="raises")))
+    # objective value
+    ref = Ref(full, 0)
+    oref = ref.S(model["obj"])
+    try:
+        fx = call["fun"](x)
+    except Exception as e:  # noqa: BLE001
+        res.append(violation(f"{PID}|fun-raises|{form}", f"{tag}: fun raises {e}", dict(payload, kind="raises")))
+        return res
+    res.append(K.decide(smt.eq(fx, s * oref + pl), pc, ref.dom, f"{tag}: fun == {'+' if s > 0 else '-'}objective", f"{PID}|fun|{form}", dict(payload, ob="fun"), allv, qt))
+    # gradient = derivative of fun itself
+    dref = Ref(K.dual_val(full, cols[0]), 1)
+    dref.S(model["obj"])
+    ddom = dref.dom
+    if call["jac"] is None:
+        res.append(violation(f"{PID}|no-jac|{form}", f"{tag}: no jac passed", dict(payload, kind="raises")))
+    else:
+        try:
+            g = np.asarray(call["jac"](x)).reshape(-1)
+            claims = []
+            for j, w in enumerate(cols):
+                d = K.tangent(call["fun"](_dual_x(cols, xv, w)))
+                claims.append(smt.eq(g[j], d + pl))
+            res.append(K.decide(claims, pc, ddom, f"{tag}: jac == grad fun", f"{PID}|jac|{form}", dict(payload, ob="jac"), allv, qt))
+        except SymbolicConcretisation as e:
+            res.append(K.vacuous_or_error(e, pc, ddom, f"{tag}: jac", tag))
+    # hessian
+    want_h = mpassed in HESS
+    if (call["hess"] is not None) != want_h:
+        res.append(violation(f"{PID}|hess-presence|{mpassed}", f"{tag}: hess passed={call['hess'] is not None} for method {mpassed}", dict(payload, kind="raises")))
+    elif call["hess"] is not None:
+        try:
+            H = np.asarray(call["hess"](x))
+            claims = []
+            for i, wi in enumerate(cols):
+                for j, wj in enumerate(cols):
+                    d2 = K.second(call["fun"](_dual_x(cols, xv, wi, wj)))
+                    claims.append(smt.eq(H[i, j], d2 + pl))
+            res.append(K.decide(claims, pc, ddom, f"{tag}: hess == hess fun", f"{PID}|hess|{form}", dict(payload, ob="hess"), allv, qt))
+        except SymbolicConcretisation as e:
+            res.append(K.vacuous_or_error(e, pc, ddom, f"{tag}: hess", tag))
+    # constraints
+    cons = list(call["constraints"]) if call["constraints"] else []
+    if len(cons) != len(model["cons"]):
+        res.append(violation(f"{PID}|constraint-count|{form}", f"{tag}: {len(cons)} dicts for {len(model['cons'])} constraints", dict(payload, kind="raises")))
+    else:
+        for k, ((sense, v, dom), cd) in enumerate(zip(user_constraint_values(model, full), cons)):
+            cf = cd["fun"](x)
+            if sense == "<=":
+                okt = cd["type"] == "ineq"
+                claim = K_bool(cf >= 0) == K_bool(v <= 0)
+            else:
+                okt = cd["type"] == "eq"
+                claim = K_bool(cf == 0) == K_bool(v == 0)
+            if planted:
+                claim = K_bool(cf >= 1) == K_bool(v <= 0)
+            if not okt:
+                res.append(violation(f"{PID}|constraint-type|{form}", f"{tag}: constraint {k} has type {cd['type']}", dict(payload, kind="raises")))
+                return res
+            res.append(K.decide(claim, pc, dom, f"{tag}: constraint {k} fun>=0 (==0) iff the user's relation", f"{PID}|constraint-fun|{form}|{model['cons'][k][0]}", dict(payload, ob=f"con{k}"), allv, qt))
+            cdref = Ref(K.dual_val(full, cols[0]), 1)
+            LM.con_ref(cdref, *model["cons"][k])
+            try:
+                g = np.asarray(cd["jac"](x)).reshape(-1)
+                claims = [smt.eq(g[j], K.tangent(cd["fun"](_dual_x(cols, xv, w))) + pl) for j, w in enumerate(cols)]
+                res.append(K.decide(claims, pc, cdref.dom, f"{tag}: constraint {k} jac == grad fun", f"{PID}|constraint-jac|{form}|{model['cons'][k][0]}", dict(payload, ob=f"conjac{k}"), allv, qt))
+            except SymbolicConcretisation as e:
+                res.append(K.vacuous_or_error(e, pc, cdref.dom, f"{tag}: constraint jac", tag))
+    # bounds
+    wantb = mpassed in BOUNDS_OK
+    if (call["bounds"] is not None) != wantb:
+        res.append(violation(f"{PID}|bounds-presence|{mpassed}", f"{tag}: bounds passed={call['bounds'] is not None} for {mpassed}", dict(payload, kind="raises")))
+    elif call["bounds"] is not None:
+        claims, bad = [], None
+        for i, n in enumerate(cols):
+            lb, ub = LM.declared_bounds(model, n, val)
+            glb, gub = call["bounds"][i]
+            for g, d, inf in ((glb, lb, -np.inf), (gub, ub, np.inf)):
+                g_none = g is None or (isinstance(g, float) and g == inf)
+                if g_none != (d is None):
+                    bad = (n, g, d)
+                elif not g_none:
+                    claims.append(smt.eq(g, d))
+        if bad:
+            res.append(violation(f"{PID}|bounds|{form}", f"{tag}: bound of {bad[0]} passed {bad[1]} declared {bad[2]}", dict(payload, kind="raises")))
+        else:
+            res.append(K.decide(claims, pc, [], f"{tag}: bounds == declared", f"{PID}|bounds|{form}", dict(payload, ob="bounds"), allv, qt))
+    # x0
+    if not check_x0:
+        return res
+    x0 = call["x0"]
+    hyp, claims = [], []
+    for i, n in enumerate(cols):
+        lb, ub = LM.declared_bounds(model, n, val)
+        if lb is not None and ub is not None:
+            hyp.append(K_bool(lb <= ub))
+        if lb is not None:
+            claims.append(x0[i] >= lb)
+        if ub is not None:
+            claims.append(x0[i] <= ub)
+    if len(x0) != len(cols):
+        res.append(violation(f"{PID}|x0-shape|{form}", f"{tag}: x0 has {len(x0)} entries", dict(payload, kind="raises")))
+    elif claims:
+        res.append(K.decide(claims, pc, hyp, f"{tag}: x0 inside bounds when lb<=ub", f"{PID}|x0|{form}", dict(payload, ob="x0"), allv, qt))
+    return res
